@@ -2173,6 +2173,20 @@ def read_lines(path_or_source, *, include=False, include_dirs=None):
     return lines
 
 
+# backslash escapes as a Python string literal has them; text that is not part of an escape
+# (non-ASCII characters, a backslash that starts no escape) stays exactly as written
+RE_ESCAPE = re.compile(r'\\(?:[abfnrtv\\\'"]|[0-7]{1,3}|x[0-9a-fA-F]{2}|u[0-9a-fA-F]{4}|U[0-9a-fA-F]{8}|N\{[^}]+\})')
+
+
+def unescape(text):
+    def replace(match):
+        try:
+            return match.group(0).encode('ascii').decode('unicode_escape')
+        except UnicodeDecodeError:
+            return match.group(0)
+    return RE_ESCAPE.sub(replace, text)
+
+
 def lex_tokens(line):
     RE_ERROR = re.compile(r'\s*error (.*)')
     RE_STRING = re.compile(r'\s*string (.*)')
@@ -2184,17 +2198,18 @@ def lex_tokens(line):
     # check for error literal (needs custom lexing)
     match = RE_ERROR.match(line.contents)
     if match is not None:
-        message = match.group(1)
-        message = message.encode('utf-8').decode('unicode_escape')
+        message = unescape(match.group(1))
         tokens = ['error', message]
         return LineTokens(line, tokens)
 
     # check for string literal (needs custom lexing)
     match = RE_STRING.match(line.contents)
     if match is not None:
-        value = match.group(1)
-        # unicode_escape reads bytes as Latin-1: keep non-ASCII text intact by escaping it first
-        value = value.encode('latin-1', 'backslashreplace').decode('unicode_escape')
+        value = unescape(match.group(1))
+        try:
+            value.encode('utf-8')
+        except UnicodeEncodeError:
+            raise AssemblerError('string has no UTF-8 encoding (escape for a surrogate code point)', line)
         tokens = ['string', value]
         return LineTokens(line, tokens)
 
